@@ -185,8 +185,8 @@ func (a *Authenticator) receivePAP(data []byte) error {
 	identifier := data[1]
 	length := binary.BigEndian.Uint16(data[2:4])
 
-	if int(length) > len(data) {
-		return fmt.Errorf("PAP length exceeds packet")
+	if int(length) < 4 || int(length) > len(data) {
+		return fmt.Errorf("PAP length invalid")
 	}
 
 	switch code {
@@ -306,8 +306,8 @@ func (a *Authenticator) receiveCHAP(data []byte) error {
 	identifier := data[1]
 	length := binary.BigEndian.Uint16(data[2:4])
 
-	if int(length) > len(data) {
-		return fmt.Errorf("CHAP length exceeds packet")
+	if int(length) < 4 || int(length) > len(data) {
+		return fmt.Errorf("CHAP length invalid")
 	}
 
 	switch code {
